@@ -45,7 +45,7 @@ def analysis_case(prog, fname_prog, source):
     rows, lrows = c01_run.analyzer_rows(source, fname_prog["name"], c01_gen.analysis_globals(prog))
     crow = clist([f"({_cpath(p)}, {_cset(a)}, {_cset(i)}, {_cset(o)})" for (p, a, i, o) in rows])
     clrow = clist([f"({_cpath(p)}, {_cset(a)}, {_cset(e)})" for (p, a, e) in lrows])
-    return f"({c01_gen.coq_block(fname_prog['body'])}, {c01_gen.coq_globals(prog)}, {crow}, {clrow})", len(rows), len(lrows)
+    return f"({c01_gen.coq_block(fname_prog['body'])}, {c01_gen.coq_globals(prog, fname_prog)}, {crow}, {clrow})", len(rows), len(lrows)
 
 
 # ---- reference: upward-exposed uses of a loop body by plain data flow (a loop runs zero or more times), computed on the
@@ -270,7 +270,7 @@ def translate_case(d: Decorated, fp_prog, legacy=False):
         orders = []       # refused: the model lists every set in its own order
     consts = clist([f"({c01_gen._cs(k)}, {_clit(v)})" for k, v in sorted(d.prog["globals"].items())])
     corders = clist([clist([c01_gen._cs(x) for x in o]) for o in orders])
-    txt = f"({c01_gen.coq_func(fp_prog)}, {consts}, {c01_gen.coq_globals(d.prog)}, {corders}, {real})"
+    txt = f"({c01_gen.coq_func(fp_prog)}, {consts}, {c01_gen.coq_globals(d.prog, fp_prog)}, {corders}, {real})"
     return txt, loops, f is not None
 
 
@@ -384,7 +384,8 @@ def mechanisms(d: Decorated):
         m["for_bound"] |= c01_run.for_bound_not_live(d.source, fp["name"], c01_gen.analysis_globals(d.prog))
         m["loop_live_out"] |= c01_run.loop_live_out_dropped(d.source, fp["name"], c01_gen.analysis_globals(d.prog))
         m["float_mod"] |= "float-mod-tensor" in fp.get("features", [])
-        m["param_shadow_if"] |= c01_run.if_test_parameter_shadows_global(d.source, fp["name"], set(d.prog["globals"]))
+        m["param_shadow_if"] |= (not c01_run.constant_if_excludes_parameters()
+                                 and c01_run.if_test_parameter_shadows_global(d.source, fp["name"], set(d.prog["globals"])))
     return m
 
 
